@@ -290,6 +290,9 @@ Section Build.
     : bool * option text * list gt :=
     (typed, d_name Df, fst (make_tree fuel K_root [] s)).
 
+  (* tree_class(name=name, forward_attrs=True) *)
+  Definition forward_attrs : bool := true.
+
   (* assert "__root__" in relations *)
   Definition def_accepted : bool := mem K_root rels.
 End Build.
